@@ -38,6 +38,10 @@ func (c *syncCase) Sample(res *simpool.Result) any {
 	_, probes := syncmodel.Check(c.sc, res)
 	return map[string]any{"scenario": c.sc, "history_records": len(res.Hist), "probes": probes, "tape": res.Tape}
 }
+func (c *syncCase) Probes(res *simpool.Result) map[string]int {
+	_, probes := syncmodel.Check(c.sc, res)
+	return probes
+}
 func (c *syncCase) ModelSize() (int, int)  { return 0, 0 }
 func (c *syncCase) SimCfg() map[string]any { return nil }
 func (c *syncCase) KnownFinding(kf *known.File, property string, v *scripteng.Verdict) string {
